@@ -244,6 +244,12 @@ func (e *Exec) tr(x SExpr, env *SpecEnv) TV {
 				return TV{mk(SBV64, "bvnot", v.T), v.Ty}
 			}
 			e.specFail("^ on a non-word in a contract")
+		case "*":
+			p, ok := types.Unalias(v.Ty).Underlying().(*types.Pointer)
+			if !ok {
+				e.specFail("dereference of a non-pointer in a contract")
+			}
+			return TV{e.loadObject(env.cur, p.Elem(), v.T), p.Elem()}
 		}
 	case *SBin:
 		return e.trBin(x, env)
@@ -719,6 +725,17 @@ func (e *Exec) trCall(x *SCall, env *SpecEnv) TV {
 			e.specFail("astore() of a non-array value")
 		}
 		return TV{Store(a.T, i.T, e.toSort(v.T, e.elemSort(at.Elem()))), a.Ty}
+	case "wcnt":
+		argn(2)
+		w := e.tr(x.Args[0], env)
+		k := e.tr(x.Args[1], env)
+		e.needBitLib()
+		return TV{mk(SInt, "wcnt", e.toSort(w.T, SBV64), k.T), specInt}
+	case "tz", "lz":
+		argn(1)
+		w := e.tr(x.Args[0], env)
+		e.needBitLib()
+		return TV{mk(SInt, "bv"+x.Fun, e.toSort(w.T, SBV64)), specInt}
 	case "word":
 		argn(1)
 		v := e.tr(x.Args[0], env)
@@ -905,7 +922,7 @@ func (e *Exec) recursiveSpecCall(sf *SpecFunc, args []TV, env *SpecEnv) TV {
 	}
 	for _, k := range keys {
 		h := e.heapGet(env.cur, k)
-		if env.cur.probe != nil || !strings.HasPrefix(k, "M_") {
+		if env.cur.probe != nil || !strings.HasPrefix(k, "M_") || specReadsThroughPointers(args) {
 			ts = append(ts, h)
 			continue
 		}
@@ -1069,4 +1086,17 @@ func (e *Exec) viewGoalOf(c Clause, env *SpecEnv, st *State) string {
 		return tv.T.S
 	}
 	return ""
+}
+
+
+// specReadsThroughPointers: a recursive spec function with pointer / interface parameters may read
+// element memory through them, so its heap argument cannot be restricted to its slice arguments.
+func specReadsThroughPointers(args []TV) bool {
+	for _, a := range args {
+		switch types.Unalias(a.Ty).Underlying().(type) {
+		case *types.Pointer, *types.Interface:
+			return true
+		}
+	}
+	return false
 }
